@@ -19,6 +19,26 @@ CHECKS = {
          "Model checking of shutdown safety+liveness and restart, bound to the code by gate replay of model behaviours (including the model's own counterexamples as adversarial schedules) and TLC-judged observation traces; a violation is a real hang, panic, late callback, surviving worker or wrong close count.",
          "Bounded time is the 3 s watchdog after all gates are opened; callbacks terminate; restart is explored after the previous Serve has returned.",
          "4.0 C03"),
+ "C04": ("reqsim", "model_checking",
+         "TLA+ request specification (ResRequest.tla: dispatch, reply funnel, recover, meta, event methods as one step function): TLC model-checks ExactlyOne/AtMostOne for every scenario of the bound x every handler script of up to 2 (thorough: 3) steps; request scenarios (every step alone, step pairs, the dispatch space, seeded random scripts) are executed on the real service over a recording connection and every request becomes a record judged by TLC against the reference outcome Run(sc) (TraceRequest.tla clauses C04:exactly-one, C04:survives)",
+         "Bounded-exhaustive model checking of the request state machine plus conformance of real request executions; a violation is a real request with zero or two responses, a service that stops answering, or a handler panic that kills the process.",
+         "Scripts use only methods of the request type's interface; absence of a reply is final once the rq.done hook has fired; panics that kill the process are observed in a child process.",
+         "4.1 C04"),
+ "C05": ("reqsim", "model_checking",
+         "TLA+ request specification (ResRequest.tla: dispatch, reply funnel, recover, meta, event methods as one step function): TLC model-checks Dispatch for every scenario of the bound x every handler script of up to 2 (thorough: 3) steps; request scenarios (every step alone, step pairs, the dispatch space, seeded random scripts) are executed on the real service over a recording connection and every request becomes a record judged by TLC against the reference outcome Run(sc) (TraceRequest.tla clauses C05:dispatch, C05:unaltered, C05:response)",
+         "As C04; a violation is a real request for which another handler ran than the reference selects, the handler saw data that differs from what was sent, or the response differs from the reference mapping (notFound / methodNotFound / internalError / verbatim *Error).",
+         "Request data are atoms for TLC (equality only); the pools contain quotes, unicode, nested JSON, empty values; resource names include method-like tokens.",
+         "4.1 C05"),
+ "C07": ("reqsim", "model_checking",
+         "TLA+ request specification (ResRequest.tla: dispatch, reply funnel, recover, meta, event methods as one step function): TLC model-checks MetaOnlyHttp and the message sequence for every scenario of the bound x every handler script of up to 2 (thorough: 3) steps; request scenarios (every step alone, step pairs, the dispatch space, seeded random scripts) are executed on the real service over a recording connection and every request becomes a record judged by TLC against the reference outcome Run(sc) (TraceRequest.tla clauses C07:wellformed, C07:meta, C07:messages)",
+         "As C04; every message published while a request is processed is parsed by an independent protocol parser (subject forms, JSON shapes per message class, pre-response format) and compared with the reference message sequence; a violation is a malformed or unexpected real message.",
+         "The harness' protocol parser is the trusted base; connection ids are protocol-conformant; unmarshalable values are channels.",
+         "4.1 C07"),
+ "C08": ("reqsim", "model_checking",
+         "TLA+ request specification (ResRequest.tla: dispatch, reply funnel, recover, meta, event methods as one step function): TLC model-checks EventOrder/ProgramOrder/NoPublishOnFailure for every scenario of the bound x every handler script of up to 2 (thorough: 3) steps; request scenarios (every step alone, step pairs, the dispatch space, seeded random scripts) are executed on the real service over a recording connection and every request becomes a record judged by TLC against the reference outcome Run(sc) (TraceRequest.tla clauses C08:log, C08:order)",
+         "As C04; apply handlers, the connection and listeners append to one log; a violation is a real log that differs from the reference interleaving (apply, publish, listeners in order; nothing after a failed or no-op apply; program order).",
+         "Listeners are registered on the resource pattern; the step index of the script is attached to every log entry by the harness.",
+         "4.1 C08"),
  "C06": ("muxdiff", "model_checking",
          "TLA+ routing reference (ResMux.tla: most-specific match, params, group templates, acceptance rules): TLC model-checks that the most specific match is well defined for every conflict-free pattern set of the bound, and judges every registration outcome and every GetHandler result recorded from real Mux configurations (all mount arrangements) against the reference (TraceMux.tla)",
          "Bounded-exhaustive model checking of the routing order plus conformance of the real mux on enumerated and random configurations x names; a violation is a real registration outcome or lookup result (or a lookup panic) that contradicts the reference.",
